@@ -6,6 +6,7 @@ import (
 	"crypto/ed25519"
 	"fmt"
 	"math/big"
+	"sync"
 	"testing"
 	"time"
 
@@ -210,6 +211,29 @@ func TestC05Candidates(t *testing.T) {
 			for i := 0; i < c.Int("acts", 0, 4); i++ {
 				[]func(){h.ActTransfer, h.ActIntent, h.ActReceive}[c.Pick("act", 3)]()
 			}
+			// a stale producer event: a pillar of this node that is NOT elected for the slot is told to produce
+			// (its own momentum goes through generation and insertion only, nobody else re-verifies it first)
+			if len(h.W.Keys.Pillars) > 1 && c.Weighted("staleEvent", 2, 1) == 1 {
+				skip := c.Weighted("stale.skip", 4, 1, 1)
+				ts := sim.SlotTime(h.A.Frontier(), skip)
+				if elected, err := h.A.Cons.GetMomentumProducer(ts); err == nil {
+					var others []types.Address
+					for _, kp := range h.W.Keys.Pillars {
+						if kp.Address != *elected {
+							others = append(others, kp.Address)
+						}
+					}
+					who := others[c.Pick("stale.who", len(others))]
+					before := h.A.Frontier().Hash
+					if h.A.ProcessEventFor(skip, who) {
+						c.Class("stale-producer-event")
+						if fr := h.A.Frontier(); fr.Hash != before {
+							c.Failf("C05/own-momentum-by-non-elected", "told to produce for the slot at %d, pillar %v (not elected: %v is) generated momentum %d and the node inserted it", ts.Unix(), who, *elected, fr.Height)
+						}
+					}
+				}
+				base = h.A.Height()
+			}
 			if !h.Produce(c.Weighted("skip", 4, 1, 1)) {
 				break
 			}
@@ -392,4 +416,116 @@ func sortStrings(s []string) {
 			s[j], s[j-1] = s[j-1], s[j]
 		}
 	}
+}
+
+// TestC05Race (built with -race): the schedule is the same "computed live, from its cache, after a restart": several
+// goroutines ask a node with a cold consensus cache for the producers of many ticks at once (what the insert
+// goroutine, the consensus loop, RPC and contract execution do on a real node) while momentums are being inserted;
+// every answer must equal the election defined by the ledger, and the race detector must stay silent.
+func TestC05Race(t *testing.T) {
+	pbt.Check(t, "C05", func(c *pbt.C) {
+		h := sim.NewHist(c, electionSpec(c), genWorldOpts(c))
+		h.Intents = sim.DefaultIntents()
+		for r, rounds := 0, c.Int("rounds", 3, 8); r < rounds && !h.Dead; r++ {
+			for i := 0; i < c.Int("acts", 0, 3); i++ {
+				h.ActIntent()
+			}
+			h.Produce([]int{0, 0, 3, 31, 64}[c.Pick("skip", 5)])
+		}
+		if h.Dead {
+			return
+		}
+		top := h.A.Height()
+		b := h.W.AddNode("B", false)
+		half := top/2 + 1
+		if half > 1 {
+			if _, err := b.Bridge.InsertChain(h.A.Range(2, half)); err != nil {
+				c.Failf("C05/follower", "follower refused honest momentums: %v", err)
+			}
+		}
+		// cold consensus cache
+		nb, err := b.Restart(false)
+		if err != nil {
+			c.Failf("C05/follower", "restart failed: %v", err)
+		}
+		h.W.Replace(b, nb)
+		ticks := allTicks(nb)
+		type q struct {
+			ts   time.Time
+			want types.Address
+			tick uint64
+			slot int
+		}
+		var qs []q
+		for _, tick := range ticks[:len(ticks)-1] { // ticks whose proof momentum the follower has
+			ref, _, _, err := sim.RefElection(nb, tick)
+			if err != nil {
+				continue
+			}
+			for slot := 0; slot < sim.RefSlots; slot += 1 + c.Int("slotStep", 0, 6) {
+				qs = append(qs, q{ts: sim.SlotStart(nb, tick, slot), want: ref[slot], tick: tick, slot: slot})
+			}
+		}
+		if len(qs) == 0 {
+			return
+		}
+		workers := c.Int("workers", 2, 8)
+		orders := make([][]int, workers)
+		for w := range orders {
+			for i := range qs {
+				orders[w] = append(orders[w], i)
+			}
+			for i := len(qs) - 1; i > 0; i-- {
+				j := c.Int("order", 0, i)
+				orders[w][i], orders[w][j] = orders[w][j], orders[w][i]
+			}
+		}
+		rest := h.A.Range(half+1, top)
+		var wg sync.WaitGroup
+		bad := make(chan string, workers+1)
+		for w := 0; w < workers; w++ {
+			wg.Add(1)
+			go func(w int) {
+				defer wg.Done()
+				defer func() {
+					if r := recover(); r != nil {
+						select {
+						case bad <- fmt.Sprintf("panic inside the election: %v", r):
+						default:
+						}
+					}
+				}()
+				for _, i := range orders[w] {
+					got, err := nb.Cons.GetMomentumProducer(qs[i].ts)
+					if err != nil || got == nil || *got != qs[i].want {
+						select {
+						case bad <- fmt.Sprintf("tick %d slot %d: concurrent reader %d got %v (%v), the election defined by the ledger gives %v", qs[i].tick, qs[i].slot, w, got, err, qs[i].want):
+						default:
+						}
+						return
+					}
+				}
+			}(w)
+		}
+		// the insert goroutine
+		wg.Add(1)
+		go func() {
+			defer wg.Done()
+			for i := range rest {
+				_, _ = nb.Bridge.InsertChain(rest[i : i+1])
+			}
+		}()
+		wg.Wait()
+		select {
+		case msg := <-bad:
+			c.Failf("C05/schedule-mismatch-concurrent", "%s", msg)
+		default:
+		}
+		// and afterwards, single-threaded, from the cache the concurrent phase filled
+		checkSchedule(c, nb, allTicks(nb), "after concurrent cold elections")
+		if len(ticks) > 2 && workers >= 3 {
+			c.NonTrivial()
+		}
+		c.R.Count("concurrent_election_queries", len(qs)*workers)
+	})
 }
